@@ -212,6 +212,12 @@ func vc12Gen(seeds []c12h.Seed, rng *vh.Rng, thorough bool) []c12h.Input {
 	for si := range seeds {
 		s := &seeds[si]
 		fields, bounds, hot := vc12Fields(s)
+		var qfields []c12h.Field
+		for _, f := range fields {
+			if f.Name == "prefix.offset" || f.Name == "bucket.numhashes" {
+				qfields = append(qfields, f)
+			}
+		}
 		ins = append(ins, c12h.Input{Entry: "open", Label: "valid", Data: s.Data})
 		ins = append(ins, c12h.MutateFields("open", s, fields, nil, nil)...)
 		ins = append(ins, c12h.Truncations("open", s, bounds, nil, nil)...)
@@ -221,8 +227,12 @@ func vc12Gen(seeds []c12h.Seed, rng *vh.Rng, thorough bool) []c12h.Input {
 			}
 			aux := []uint64{uint64(ki)}
 			ins = append(ins, c12h.Input{Entry: "has", Label: "valid", Data: s.Data, Keys: s.Keys, Aux: aux})
-			ins = append(ins, c12h.MutateFields("has", s, fields, s.Keys, aux)...)
-			ins = append(ins, c12h.Truncations("has", s, bounds, s.Keys, aux)...)
+			if ki == 0 {
+				ins = append(ins, c12h.MutateFields("has", s, fields, s.Keys, aux)...)
+				ins = append(ins, c12h.Truncations("has", s, bounds, s.Keys, aux)...)
+			} else { // the header fields are covered by "open" and by key 0: the fields Has itself reads
+				ins = append(ins, c12h.MutateFields("has", s, qfields, s.Keys, aux)...)
+			}
 		}
 		ins = append(ins, c12h.RandomMutations("has", s, rng, nrand, hot, s.Keys, []uint64{0})...)
 		ins = append(ins, c12h.RandomMutations("has", s, rng, nrand/2, hot, s.Keys, []uint64{uint64(len(s.Keys) - 2)})...)
